@@ -6,6 +6,10 @@ package mapx
 
 import "sort"
 
+// VerifWhiteBox reports whether these accessors really read the library's internal state (true here;
+// false in the black-box stub zz_verif_hashmap.go.stub that replaces this file when it no longer compiles).
+func VerifWhiteBox() bool { return true }
+
 // verifWalkLimit bounds every pointer walk so that a cyclic structure is reported, not followed forever.
 const verifWalkLimit = 1 << 12
 
@@ -120,6 +124,10 @@ type VerifBuiltinMap[K comparable, V any] struct{ b *builtinMap[K, V] }
 func VerifNewBuiltinMap[K comparable, V any](size int) VerifBuiltinMap[K, V] {
 	return VerifBuiltinMap[K, V]{b: newBuiltinMap[K, V](size)}
 }
+
+// Available reports whether the wrapper could be constructed (false in the black-box stub).
+func (v VerifBuiltinMap[K, V]) Available() bool { return v.b != nil }
+
 func (v VerifBuiltinMap[K, V]) Put(key K, val V) error { return v.b.Put(key, val) }
 func (v VerifBuiltinMap[K, V]) Get(key K) (V, bool)    { return v.b.Get(key) }
 func (v VerifBuiltinMap[K, V]) Delete(key K) (V, bool) { return v.b.Delete(key) }
